@@ -79,7 +79,7 @@ def has_leaf(s):
 
 def generate(job):
     rs = Stream(job["seed"], "C18")
-    kind = rs.weighted([("struct", 4), ("lazy", 4), ("files", 4)])
+    kind = rs.weighted([("struct", 4), ("lazy", 4), ("files", 4), ("lazy_config", 2)])
     N = rs.choice([1, 2, 3, 7, 10, 16, 40])
     spec = {"kind": kind, "N": N, "dseed": rs.randrange(1 << 30), "ops": []}
 
@@ -105,6 +105,15 @@ def generate(job):
             spec["ops"].append({"k": k, "b": batch()})
         if spec["cache"] == "dir" and rs.chance(0.4):
             spec["fault"] = {"at": rs.randrange(len(spec["ops"])), "bytes": rs.choice([0, 64, 300, 2000])}
+    elif kind == "lazy_config":
+        spec["n_part"] = 3
+        spec["perm"] = rs.shuffle([0, 1, 2])
+        spec["lazy_file"] = rs.chance(0.5)
+        spec["cache"] = rs.choice([None, "dir"])
+        spec["prefetch"] = rs.choice([0, 1, -1])
+        spec["fmt"] = "npy" if spec["lazy_file"] else rs.choice(["npy", "dat"])
+        for _ in range(rs.randint(2, 6)):
+            spec["ops"].append({"k": rs.choice(["iterate", "iterate", "eval", "restart", "batch_call"]), "b": batch()})
     else:
         n = rs.choice([3, 3, 4])
         spec["n_part"] = n
@@ -591,6 +600,102 @@ def run_files(spec, log, scratch):
     return compared
 
 
+def run_lazy_config(spec, log, scratch):
+    """the lazy options of the data section against the eager data of the same files"""
+    import numpy as np
+
+    from sim.seams import rng_seam
+    from tf_pwa import data as D
+    from tf_pwa.config_loader import ConfigLoader
+
+    N = spec["N"]
+    names = ["B", "C", "D"]
+    order = [names[i] for i in spec["perm"]]
+    card = copy.deepcopy(CARD)
+    card["data"] = {"dat_order": order}
+    cfg0 = ConfigLoader(copy.deepcopy(card))
+    with rng_seam(spec["dseed"]):
+        p = cfg0.generate_phsp_p(N)
+    P = {str(k): np.array(v) for k, v in p.items()}
+    arr = np.stack([P[k] for k in order]).transpose((1, 0, 2)).reshape((-1, 4))
+    fn = os.path.join(scratch, "data." + spec["fmt"])
+    if spec["fmt"] == "npy":
+        np.save(fn, arr)
+    else:
+        np.savetxt(fn, arr)
+    eager_card = copy.deepcopy(card)
+    eager_card["data"]["data"] = [fn]
+    eager = ConfigLoader(eager_card).get_data("data")[0]
+    want = {}
+    for k in names:
+        pk = [kk for kk in eager["particle"] if str(kk) == k][0]
+        want[("particle", k, "p")] = np.array(eager["particle"][pk]["p"])
+        want[("particle", k, "m")] = np.array(eager["particle"][pk]["m"])
+    lazy_card = copy.deepcopy(eager_card)
+    lazy_card["data"].update({"lazy_call": True, "lazy_file": bool(spec["lazy_file"]), "lazy_prefetch": spec["prefetch"]})
+    if spec["cache"] == "dir":
+        os.makedirs(os.path.join(scratch, "lc"), exist_ok=True)
+        lazy_card["data"]["cached_lazy_call"] = os.path.join(scratch, "lc") + "/"
+
+    def make():
+        return ConfigLoader(copy.deepcopy(lazy_card)).get_data("data")[0]
+
+    lz = make()
+    compared = 0
+
+    def leaf(d, key):
+        _, k, f = key
+        pk = [kk for kk in d["particle"] if str(kk) == k][0]
+        return np.array(d["particle"][pk][f])
+
+    what = "lazy_call%s%s" % ("+lazy_file" if spec["lazy_file"] else "", "+cache" if spec["cache"] else "")
+    for i, op in enumerate(spec["ops"]):
+        k, b = op["k"], op["b"]
+        log.count("op.cfg_" + k)
+        try:
+            if k in ("iterate", "restart"):
+                if k == "restart":
+                    lz = make()
+                    log.count("probe.restart")
+                parts = [dict(x) for x in D.data_split(lz, b)]
+                sizes = [int(leaf(x, ("particle", "B", "m")).shape[0]) for x in parts]
+                if sum(sizes) != N or any(sz != b for sz in sizes[:-1]) or len(sizes) != (N + b - 1) // b:
+                    log.fail("lazy-equals-eager", "%s|%s|batch-sizes" % (what, k), "%s: iterating with batch=%d over %d events gave batch sizes %s" % (what, b, N, sizes), step=i)
+                    raise Failure()
+                for key, ref in want.items():
+                    got = np.concatenate([leaf(x, key) for x in parts], axis=0)
+                    if got.shape != ref.shape or not np.allclose(got, ref, rtol=1e-12, atol=1e-300):
+                        log.fail("lazy-equals-eager", "%s|%s|content" % (what, k), "%s: lazily produced %s differs from the eager data of the same file (batch=%d)" % (what, key, b), step=i)
+                        raise Failure()
+                compared += 1
+            elif k == "eval":
+                ev = lz.eval()
+                for key, ref in want.items():
+                    if not np.allclose(leaf(ev, key), ref, rtol=1e-12, atol=1e-300):
+                        log.fail("lazy-equals-eager", "%s|eval|content" % what, "%s: eval() content of %s differs from eager data" % (what, key), step=i)
+                        raise Failure()
+                compared += 1
+            elif k == "batch_call":
+                got = np.array(D.batch_call(lambda d: leaf(d, ("particle", "C", "m")), lz, batch=b))
+                ref = want[("particle", "C", "m")]
+                if got.shape != ref.shape or not np.allclose(got, ref, rtol=1e-12):
+                    log.fail("batchwise-equals-whole", "%s|batch_call|content" % what, "%s: batch_call over lazy data (batch=%d) differs from eager data" % (what, b), step=i)
+                    raise Failure()
+                compared += 1
+        except Failure:
+            raise
+        except Exception as e:
+            import traceback
+
+            tb = traceback.extract_tb(e.__traceback__)
+            if "/verif/" in tb[-1].filename:
+                raise
+            log.fail("raised", "%s|%s|raised|%s" % (what, k, type(e).__name__), "%s: %s raised %s: %s" % (what, k, type(e).__name__, str(e)[:300]), step=i)
+            raise Failure()
+        log.state(k, b)
+    return compared
+
+
 def execute(spec):
     from sim.env import Log, Scratch
 
@@ -602,6 +707,8 @@ def execute(spec):
                 compared = run_struct(spec, log)
             elif spec["kind"] == "lazy":
                 compared = run_lazy(spec, log, scratch)
+            elif spec["kind"] == "lazy_config":
+                compared = run_lazy_config(spec, log, scratch)
             else:
                 compared = run_files(spec, log, scratch)
     except Failure:
